@@ -763,6 +763,47 @@ func init() {
 	}
 	// other argument forms of association mode: values and slices of values instead of pointers, Select /
 	// Omit on the association save, and Delete / Clear on a record whose relation is loaded in memory
+	// cascading delete of selected relations, scoped and Unscoped, with the default transaction and with
+	// SkipDefaultTransaction (only without the enclosing BEGIN does a cancelled context reach the nested
+	// statements one by one)
+	for _, rel := range []string{"Pets", "Profile", "Langs", "*"} {
+		rel := rel
+		for _, unscoped := range []bool{false, true} {
+			unscoped := unscoped
+			for _, skipTx := range []bool{false, true} {
+				skipTx := skipTx
+				n := "delete_cascade_" + strings.ToLower(strings.ReplaceAll(rel, "*", "all"))
+				if unscoped {
+					n += "_unscoped"
+				}
+				if skipTx {
+					n += "_skiptx"
+				}
+				families = append(families, fam{name: n, run: func(h *gorm.DB) error {
+					d := h
+					if skipTx {
+						d = d.Session(&gorm.Session{SkipDefaultTransaction: true})
+					}
+					if unscoped {
+						d = d.Unscoped()
+					}
+					if rel == "*" {
+						d = d.Select(clause.Associations)
+					} else {
+						d = d.Select(rel)
+					}
+					// user 2 and its relations were seeded before the operation
+					return d.Delete(&User{ID: 2}).Error
+				}, path: func(t string) []string {
+					if t == "users" {
+						return nil
+					}
+					return []string{litDelAssoc0}
+				}})
+				singleCall[n] = true
+			}
+		}
+	}
 	forms := []fam{
 		{name: "am_append_value_forms", run: func(h *gorm.DB) error {
 			if err := h.Model(&User{ID: 1}).Association("Pets").Append([]Pet{{Name: name("vf")}, {Name: name("vf")}}); err != nil {
@@ -1165,7 +1206,7 @@ func main() {
 			}
 		}
 	}
-	budget := 1150
+	budget := 1300
 	if a.Tier == "thorough" {
 		budget = 2500
 	}
@@ -1201,7 +1242,7 @@ func main() {
 		}
 		add("main", in)
 	}
-	out.Extra["rule"] = "cases = programs of 1..4 operations on one database, each operation from one of " + fmt.Sprint(len(families)) + " families (Create with belongs-to/has-many/many2many values, CreateInBatches, Save existing/missing, Updates, Delete with Select(associations), Preload single/nested/clause.Associations, Joins, Joins + preload nested under the joined relation with First/Take/Last/Find(&one)/Find(&slice)/Find(&[]*T) destinations and inside Transaction, Association mode over belongs-to / has-one / has-many / many2many x Append/Replace/Delete/Clear/Count/Find x one record / slice of records x scoped / Unscoped, FirstOrInit, FirstOrCreate (found+Assign, Attrs), Count with Distinct/Group/Select, Save of a slice, UpdateColumn(s), Delete with conditions, Delete with Select(clause.Associations), Preload with conditions and with a scope function, Connection, manual SavePoint/RollbackTo, Begin..Rollback, Row/Rows/Exec inside Transaction, Scopes, FindInBatches with a statement from the batch handle, FindInBatches with Limit / Offset+Limit over several batches in and out of Transaction, a Transaction block deriving a side session with another context, Count, Pluck, First/Take/Last, FirstOrCreate, Scan, Rows, Row, Raw, Exec, Transaction plain/nested with save points/rolled back, Begin..Commit) started from db.WithContext(ctx) or db.Session(&Session{Context: ctx}) with a distinct tag, optionally through a further caller-derived session Session{NewDB / SkipHooks / PrepareStmt / SkipDefaultTransaction / DisableNestedTransaction / AllowGlobalUpdate / FullSaveAssociations / PropagateUnscoped / QueryFields / Initialized / CreateBatchSize combinations} that does not repeat the context, optionally after a side session bound to ANOTHER context (Session{NewDB,Context} / Session{Context} / WithContext, used and/or cancelled) was derived from the very handle the operation runs on, PrepareStmt on/off, 1/8 pre-cancelled; distinct = distinct (PrepareStmt, family/bind/cancelled sequence); non-trivial = at least 2 driver events observed"
+	out.Extra["rule"] = "cases = programs of 1..4 operations on one database, each operation from one of " + fmt.Sprint(len(families)) + " families (Create with belongs-to/has-many/many2many values, CreateInBatches, Save existing/missing, Updates, Delete with Select(associations), Preload single/nested/clause.Associations, Joins, Joins + preload nested under the joined relation with First/Take/Last/Find(&one)/Find(&slice)/Find(&[]*T) destinations and inside Transaction, Association mode over belongs-to / has-one / has-many / many2many x Append/Replace/Delete/Clear/Count/Find x one record / slice of records x scoped / Unscoped, FirstOrInit, FirstOrCreate (found+Assign, Attrs), Count with Distinct/Group/Select, Save of a slice, UpdateColumn(s), Delete with conditions, Delete with Select(clause.Associations), cascading Delete of one has-many / has-one / many2many relation or all, scoped and Unscoped, with and without SkipDefaultTransaction, Preload with conditions and with a scope function, Connection, manual SavePoint/RollbackTo, Begin..Rollback, Row/Rows/Exec inside Transaction, Scopes, FindInBatches with a statement from the batch handle, FindInBatches with Limit / Offset+Limit over several batches in and out of Transaction, a Transaction block deriving a side session with another context, Count, Pluck, First/Take/Last, FirstOrCreate, Scan, Rows, Row, Raw, Exec, Transaction plain/nested with save points/rolled back, Begin..Commit) started from db.WithContext(ctx) or db.Session(&Session{Context: ctx}) with a distinct tag, optionally through a further caller-derived session Session{NewDB / SkipHooks / PrepareStmt / SkipDefaultTransaction / DisableNestedTransaction / AllowGlobalUpdate / FullSaveAssociations / PropagateUnscoped / QueryFields / Initialized / CreateBatchSize combinations} that does not repeat the context, optionally after a side session bound to ANOTHER context (Session{NewDB,Context} / Session{Context} / WithContext, used and/or cancelled) was derived from the very handle the operation runs on, PrepareStmt on/off, 1/8 pre-cancelled; distinct = distinct (PrepareStmt, family/bind/cancelled sequence); non-trivial = at least 2 driver events observed"
 	lib.Must(out.Flush())
 }
 
